@@ -10,6 +10,7 @@ import (
 	"github.com/opsidian/parsley/examples/json/json"
 	"github.com/opsidian/parsley/parsley"
 	"github.com/opsidian/parsley/text"
+	"github.com/opsidian/parsley/text/terminal"
 
 	"vh/harith"
 	"vh/rt"
@@ -18,6 +19,7 @@ import (
 func init() {
 	rt.Register("C14_Arith", C14_Arith)
 	rt.Register("C14_JSON", C14_JSON)
+	rt.Register("C14_Trims", C14_Trims)
 }
 
 func outcome(v interface{}, err error) string {
@@ -61,11 +63,48 @@ func evalOnce(root parsley.Parser, in []byte) (interface{}, error) {
 // concurrently), then once alone, and every concurrent result must equal the
 // sequential one.
 func Shared(root parsley.Parser, in []byte) {
+	sharedWith(func() (string, bool) {
+		v, err := evalOnce(root, in)
+		return outcome(v, err), err != nil
+	})
+}
+
+// SharedParse: the same with parsley.Parse (grammars without interpreters).
+func SharedParse(root parsley.Parser, in []byte) {
+	sharedWith(func() (string, bool) {
+		cp := make([]byte, len(in))
+		copy(cp, in)
+		f := text.NewFile("f", cp)
+		ctx := parsley.NewContext(parsley.NewFileSet(f), text.NewReader(f))
+		_, err := parsley.Parse(ctx, root)
+		if err != nil {
+			msg := err.Error()
+			for _, w := range []string{"whitespaces are not allowed", "new line is not allowed", "was expecting a new line"} {
+				if contains(msg, w) {
+					rt.Cover("whitespace error")
+				}
+			}
+			return "error: " + msg, true
+		}
+		return "accepted", false
+	})
+}
+
+func contains(s, sub string) bool {
+	for i := 0; i+len(sub) <= len(s); i++ {
+		if s[i:i+len(sub)] == sub {
+			return true
+		}
+	}
+	return false
+}
+
+func sharedWith(once func() (string, bool)) {
 	if rt.Symbolic() {
 		rt.Epoch()
-		v, err := evalOnce(root, in)
-		rt.ObsStr("outcome", outcome(v, err))
-		if err != nil {
+		o, failed := once()
+		rt.ObsStr("outcome", o)
+		if failed {
 			rt.Cover("failing input")
 		} else {
 			rt.Cover("successful input")
@@ -80,14 +119,13 @@ func Shared(root parsley.Parser, in []byte) {
 		go func(k int) {
 			defer wg.Done()
 			for rep := 0; rep < 100; rep++ {
-				v, err := evalOnce(root, in)
-				got[k] = append(got[k], outcome(v, err))
+				o, _ := once()
+				got[k] = append(got[k], o)
 			}
 		}(k)
 	}
 	wg.Wait()
-	v, err := evalOnce(root, in)
-	want := outcome(v, err)
+	want, _ := once()
 	rt.ObsStr("outcome", want)
 	for _, g := range got {
 		for _, o := range g {
@@ -96,6 +134,26 @@ func Shared(root parsley.Parser, in []byte) {
 			}
 		}
 	}
+}
+
+// C14_Trims: two tokens trimmed in every pair of whitespace modes (the modes
+// other than spaces-and-newlines raise whitespace errors, a path of its own
+// through parsley.Parse and RightTrim).
+func C14_Trims() {
+	mR := text.WsMode(rt.Choose("mode", 4))
+	mL := text.WsMode(rt.Choose("mode", 4))
+	in := []byte{'a'}
+	g := rt.Choose("gap", rt.Param("gap", 2)+1)
+	for i := 0; i < g; i++ {
+		b := rt.Byte("in")
+		rt.Assume(b != '\r')
+		in = append(in, b)
+	}
+	in = append(in, 'b')
+	root := combinator.Sentence(combinator.SeqOf(
+		text.RightTrim(terminal.Rune('a'), mR),
+		text.RightTrim(text.LeftTrim(terminal.Rune('b'), mL), mR)))
+	SharedParse(root, in)
 }
 
 func freeInput(maxN int) []byte {
